@@ -111,7 +111,7 @@ service Svc extends Base {
     D.append(doc("q_struct_key_map", "struct S { 1: map<string, i32> d }\nstruct Q { 1: map<S, i32> a }\n", shape="struct-with-map-as-key", quarantine="C14-struct-key-not-hash"))
     D.append(doc("q_default_quote", "struct Q { 1: string s = 'say \"hi\"' }\n", shape="default-string-with-double-quote", quarantine="C14-default-literal-not-escaped"))
     D.append(doc("q_default_const_list", "const list<i32> CL = [1, 2]\nstruct Q { 1: list<i32> l = CL }\n", shape="default-references-container-const", quarantine="C14-default-container-const-panics"))
-    D.append(doc("q_default_td_enum", "enum E { A = 1, B = 2 }\ntypedef E TE\nstruct Q { 1: TE e = E.B }\n", shape="default-enum-through-typedef", quarantine="C14-default-enum-through-typedef-panics"))
+    D.append(doc("q_default_td_enum", "enum E { A = 1, B = 2 }\ntypedef E TE\nstruct Q { 1: TE e = E.B }\n", shape="default-enum-through-typedef"))
     D.append(doc("q_uuid_key", "struct Q { 1: set<uuid> s, 2: map<uuid, i32> m }\n", shape="uuid-as-set-element-or-key", quarantine="C14-uuid-key-by-reference"))
     D.append(doc("q_keep_struct_literal", "struct In { 1: i32 a = 1 }\nconst In CI = {\"a\": 2}\nstruct Q { 1: In i = {\"a\": 3} }\n", shape="struct-literal", quarantine="C14-struct-literal-misses-unknown-fields"))
     D.append(doc("q_type_named_t", "struct T { 1: i32 a }\nstruct H { 1: T t, 2: list<T> ts }\n", shape="type-named-T", quarantine="C14-type-named-like-generic-parameter"))
